@@ -252,7 +252,9 @@ def _check_call(ctx, run, model, fam, n, subject, may_refuse=False):
             ctx.violate('c_kendall_tau_hoeffding', subject,
                         'sample tau %.4f vs model tau %.4f, band %.4f (n=%d)'
                         % (that, tau, et, n), clause='tau', **cond)
-        g = np.linspace(0.05, 0.95, 19)
+        # closed grid: the boundary of the unit square belongs to the copula (C(u,0) = 0,
+        # C(u,1) = u), and a batch that mixes boundary and interior rows is the ordinary case
+        g = np.concatenate([[0.0], np.linspace(0.05, 0.95, 19), [1.0]])
         G = np.array([[a, b] for a in g for b in g])
         emp = np.array([np.mean((S[:, 0] <= a) & (S[:, 1] <= b)) for a, b in G])
         mod = outcome(model.cumulative_distribution, G)
